@@ -676,7 +676,12 @@ def _list_effects(stmts, lists):
             if isinstance(a, ast.Call) and norm(a.func) in ("list", "tuple") \
                     and len(a.args) == 1:
                 a = a.args[0]
-            out.append((s.value.func.value.id, s.value.func.attr, a,
+            meth_ = s.value.func.attr
+            if meth_ == "extend" and isinstance(a, (ast.Tuple, ast.List)) \
+                    and len(a.elts) == 1 \
+                    and not isinstance(a.elts[0], ast.Starred):
+                meth_, a = "append", a.elts[0]      # extend((x,)) == append(x)
+            out.append((s.value.func.value.id, meth_, a,
                         filtered, s))
         elif isinstance(s, ast.For) and len(s.body) == 1 and not s.orelse:
             inner = _list_effects(s.body, lists)
@@ -699,7 +704,8 @@ def compound_table(ctx, res):
     repo = get_pyrepo(ctx)
     rel = "traits/trait_handlers.py"
     mod = repo.module(rel)
-    fn = repo.func(rel, "TraitCompound.set_validate")
+    from ..pyfacts import lower_ifexp_assign
+    fn = lower_ifexp_assign(repo.inlined(rel, "TraitCompound.set_validate"))
     loops = [s for s in fn.body if isinstance(s, ast.For)
              and norm(s.iter) == "self.handlers"]
     if len(loops) != 1:
